@@ -12,7 +12,12 @@ import (
 )
 
 // synCase: a raw client presents SYN N to a real server handshake.
-func synCase(t *testing.T, r *Recorder, n int) {
+func synCase(t *testing.T, r *Recorder, n int) { synCaseAfter(t, r, nil, n) }
+
+// synCaseAfter: the SYN with window n reaches the server after the packets
+// `pre` (earlier SYNs: the server is then already waiting for a SYNACK and
+// takes the re-SYN path).
+func synCaseAfter(t *testing.T, r *Recorder, pre [][]byte, n int) {
 	var srvErr error
 	var st gbn.VConnState
 	var panicMsg string
@@ -32,6 +37,10 @@ func synCase(t *testing.T, r *Recorder, n int) {
 				defer close(done)
 				conn, srvErr = gbn.NewServerConn(ctx, sim.sendFunc(1), sim.recvFunc(1))
 			}()
+			for _, p := range pre {
+				sim.Inject(0, p)
+				time.Sleep(100 * time.Millisecond)
+			}
 			sim.Inject(0, []byte{gbn.SYN, byte(n)})
 			time.Sleep(100 * time.Millisecond)
 			sim.Inject(0, []byte{gbn.SYNACK})
@@ -59,16 +68,16 @@ func synCase(t *testing.T, r *Recorder, n int) {
 	out := "err invalid window size"
 	if panicMsg != "" {
 		out = "panic"
-		r.Violate("C07/syn-window-panic", fmt.Sprintf("server handshake with SYN N=%d: %s", n, panicMsg), map[string]int{"n": n})
+		r.Violate("C07/syn-window-panic", fmt.Sprintf("server handshake with SYN N=%d after %d earlier packets: %s", n, len(pre), panicMsg), map[string]interface{}{"n": n, "pre": pre})
 	} else if srvErr == nil {
 		out = fmt.Sprintf("ok %d", st.S)
 		if int(st.S) != n+1 || st.QueueLen != n+1 || n == 0 {
 			r.Violate("C07/server-adopts-unrepresentable-window",
-				fmt.Sprintf("server entered the data phase with N=%d: s=%d len(content)=%d", n, st.S, st.QueueLen), map[string]int{"n": n})
+				fmt.Sprintf("server entered the data phase with N=%d (after %d earlier packets): s=%d len(content)=%d", n, len(pre), st.S, st.QueueLen), map[string]interface{}{"n": n, "pre": pre})
 		}
 	}
 	r.Emit(fmt.Sprintf("ep.adopt %d", n), out)
-	r.Case(fmt.Sprintf("syn:%d", n), true, "syn-window")
+	r.Case(fmt.Sprintf("syn:%d/pre=%d", n, len(pre)), true, fmt.Sprintf("syn-window/pre=%d", len(pre)))
 }
 
 type epSetup struct{ acked, pending, peer int }
@@ -232,6 +241,11 @@ func TestC07(t *testing.T) {
 	// all 256 values of the SYN window field on a real server handshake
 	for n := 0; n < 256; n++ {
 		synCase(t, r, n)
+	}
+	// ... and when it is not the first SYN the server sees (re-SYN while waiting for the SYNACK)
+	for _, n := range []int{0, 1, 2, 20, 127, 128, 253, 254, 255} {
+		synCaseAfter(t, r, [][]byte{{gbn.SYN, 20}}, n)
+		synCaseAfter(t, r, [][]byte{{gbn.SYN, 20}, {gbn.SYN, 7}}, n)
 	}
 	// live endpoints in the data phase
 	setups := []epSetup{{0, 0, 0}, {1, 2, 1}, {3, 3, 2}, {2, 0, 3}}
